@@ -1,13 +1,15 @@
 #!/bin/bash
-# run the pinned test suite on a scratch worktree of /repo's WORKING TREE (committed HEAD + uncommitted diff)
+# tools/repo_test.sh [repo-dir] — run the pinned test suite on a scratch worktree of the WORKING TREE of /repo (or of
+# the given copy of it): committed HEAD + uncommitted diff
 set -u
 export GOPROXY=off GOSUMDB=off GOTOOLCHAIN=local
+R=${1:-/repo}
 W=/tmp/repo-test-$$
-git -C /repo worktree add --detach -f $W HEAD >/dev/null 2>&1 || exit 2
-(cd /repo && git diff) | (cd $W && git apply --allow-empty 2>/dev/null)
+git -C $R worktree add --detach -f $W HEAD >/dev/null 2>&1 || exit 2
+(cd $R && git diff) | (cd $W && git apply --allow-empty 2>/dev/null)
 cd $W
 OUT=$( (go test -vet=off -count=1 ./... 2>&1; cd example-nonposix && go test -vet=off -count=1 ./... 2>&1; cd ../example && go test -vet=off -count=1 ./... 2>&1) | grep -E "^(FAIL|--- FAIL|panic|ok)" )
-cd /; git -C /repo worktree remove --force $W; git -C /repo worktree prune
+cd /; git -C $R worktree remove --force $W; git -C $R worktree prune
 echo "$OUT" | grep -vE "^ok" | head -20
 echo "packages ok: $(echo "$OUT" | grep -c '^ok')"
 if echo "$OUT" | grep -qE "^(FAIL|--- FAIL|panic)"; then echo "TESTS FAIL"; exit 1; fi
